@@ -234,6 +234,10 @@ type gcpBalancer struct {
 	csEvltr *connectivityStateEvaluator
 	state   connectivity.State
 
+	// Serializes "choose a channel and count the call on it" over all pickers of this balancer.
+	// Taken before mu, never the other way round.
+	pickMu sync.Mutex
+
 	mu          sync.RWMutex
 	affinityMap map[string]balancer.SubConn
 	fallbackMap map[string]balancer.SubConn
